@@ -6,7 +6,7 @@ import "strings"
 const hexd = "0123456789abcdef"
 
 // CoqStr prints a byte string as a Gallina term of type string.  Printable ASCII goes into
-// a plain literal; anything else into (ue "...") of Chart/Esc.v, where \HH stands for the
+// a plain literal when short; anything else into (ub "..."%bstr) of Chart/Esc.v, where \HH stands for the
 // byte with hex code HH (the backslash itself is written \5c).  A literal is elaborated by
 // Coq in linear time, unlike a list of nat numerals.
 func CoqStr(s string) string {
@@ -17,12 +17,12 @@ func CoqStr(s string) string {
 			break
 		}
 	}
-	if plain {
+	if plain && len(s) < 24 {
 		return `"` + strings.ReplaceAll(s, `"`, `""`) + `"`
 	}
 	var b strings.Builder
 	b.Grow(len(s) + 16)
-	b.WriteString(`(ue "`)
+	b.WriteString(`(ub "`)
 	for i := 0; i < len(s); i++ {
 		c := s[i]
 		switch {
@@ -36,6 +36,6 @@ func CoqStr(s string) string {
 			b.WriteByte(c)
 		}
 	}
-	b.WriteString(`")`)
+	b.WriteString(`"%bstr)`)
 	return b.String()
 }
